@@ -83,7 +83,7 @@ pub fn run(cx: &mut Ctx) {
 
 fn layout_shape_ok(src: &Src, ty: &str) -> Result<(), String> {
     let f = find_method(src, ty, "output_layout_with_checker").ok_or("output_layout_with_checker missing")?;
-    let t = sm::tsc(&f.block);
+    let t = sm::tsx(&f.block);
     let (q1, q2, it) = if ty == "UnicodeEscape" { ("'\\''", "'\"'", "forchinsource.chars()") } else { ("b'\\''", "b'\"'", "forchinsource.iter()") };
     let call = if ty == "UnicodeEscape" { "c=>Self::escaped_char_len(c)," } else { "c=>Self::escaped_char_len(*c)," };
     let want_match = format!("letincr=matchch{{{}=>{{single_count+=1;1}}{}=>{{double_count+=1;1}}{}}};", q1, q2, call);
@@ -232,7 +232,7 @@ fn quote_choice(cx: &mut Ctx, esc: &Src) {
         }
     }
     // new_repr prefers single quotes
-    let t = sm::tsc(&esc.file);
+    let t = sm::tsx(&esc.file);
     if t.matches("pubfnnew_repr(source:&'astr)->Self{Self::with_preferred_quote(source,Quote::Single)}").count() == 1 && t.matches("pubfnnew_repr(source:&'a[u8])->Self{Self::with_preferred_quote(source,Quote::Single)}").count() == 1 {
         cx.ok(rule, "new_repr prefers single quotes for text and bytes");
     } else {
@@ -244,7 +244,7 @@ fn fast_path(cx: &mut Ctx, esc: &Src) {
     let rule = "C16.F1";
     cx.rule(rule, "the fast path is taken iff the announced length equals the source length: changed() = (layout.len != Some(source_len())), write_body dispatches on changed(), source_len is the byte length, and the repr writers put the chosen quote on both sides of write_body");
     cx.floor(rule, 5);
-    let t = sm::tsc(&esc.file);
+    let t = sm::tsx(&esc.file);
     let checks = [
         ("changed", "fnchanged(&self)->bool{self.layout().len!=Some(self.source_len())}"),
         ("write_body", "fnwrite_body(&self,formatter:&mutimplstd::fmt::Write)->std::fmt::Result{ifself.changed(){self.write_body_slow(formatter)}else{self.write_source(formatter)}}"),
@@ -334,7 +334,7 @@ pub fn writer_reader(cx: &mut Ctx, rule: &str) {
                 }
             }
             // backslash before quote / backslash
-            let t = sm::tsc(&arm.body);
+            let t = sm::tsx(&arm.body);
             if t.contains("formatter.write_char('\\\\')?;") {
                 let cond_ok = t.contains("ifch==quote.to_char()||ch=='\\\\'{formatter.write_char('\\\\')?;}") || t.contains("ifch==quote.to_byte()||ch==b'\\\\'{formatter.write_char('\\\\')?;}");
                 if cond_ok && simple.contains_key(&'\\') && simple.contains_key(&'\'') && simple.contains_key(&'"') {
